@@ -25,7 +25,7 @@ from simkit.runner import Engine, Result
 P = "C12"
 LONG = 0.01
 CATS = ("filter", "keypress", "mouse", "unhandled", "alarm", "watch_file", "watch_pipe", "render", "idle")
-EXCS = ("exit", "value", "boom")
+EXCS = ("exit", "value", "boom", "kbint")
 SIGSET = (signal.SIGWINCH, signal.SIGTSTP, signal.SIGCONT)
 
 
@@ -65,7 +65,7 @@ class _Session:
         cfg = self.scen["config"]
         where = cfg["loop"] if cfg["screen"] == "external" else "nohook-screen"
         if clause == "C12.3":
-            tag = f" fault={f['cat']}/{'exit' if f['exc'] == 'exit' else 'exception'}" if f else " fault=none"
+            tag = f" fault={f['cat']}/{'exit' if f['exc'] == 'exit' else 'baseexception' if f['exc'] == 'kbint' else 'exception'}" if f else " fault=none"
             full = f"{sig}{tag} loop={where}"
         elif clause == "C12.4":
             full = f"{sig} screen={cfg['screen']}"
@@ -90,7 +90,15 @@ class _Session:
             import urwid  # noqa: PLC0415
 
             ek = f["exc"]
-            exc = urwid.ExitMainLoop() if ek == "exit" else ValueError("injected") if ek == "value" else Boom("injected")
+            exc = (
+                urwid.ExitMainLoop()
+                if ek == "exit"
+                else ValueError("injected")
+                if ek == "value"
+                else KeyboardInterrupt("injected")
+                if ek == "kbint"
+                else Boom("injected")
+            )
             self.injected = (exc, cat, i, self.world.log.seq)
             self.world.log.add("inject", [cat, i, ek])
             self.res.fault(f"raise_{ek}_in_{cat}")
@@ -307,6 +315,10 @@ class _Session:
                 outcome = ("livelock", e)
             except Exception as e:  # noqa: BLE001
                 outcome = ("raised", e)
+            except KeyboardInterrupt as e:
+                if self.injected is None or e is not self.injected[0]:
+                    raise
+                outcome = ("raised", e)
             finally:
                 self.in_run = False
             w.log.add("end", [outcome[0], type(outcome[1]).__name__ if outcome[1] is not None else ""])
@@ -423,7 +435,7 @@ class _Session:
         elif how == "returned":
             self.violate("C12.3", "injected-exception-swallowed", repr(inj))
         elif exc is not inj:
-            if core.raised_in_harness(exc) and not isinstance(exc, (Boom, ValueError)):
+            if core.raised_in_harness(exc) and not isinstance(exc, (Boom, ValueError, KeyboardInterrupt)):
                 raise core.HarnessError(f"harness exception inside run(): {core.format_exc(exc)}") from exc
             self.violate("C12.3", f"run-raised-other:{core.exc_signature(exc)}", core.format_exc(exc))
 
